@@ -52,6 +52,7 @@ type c20Scenario struct {
 	Requests  []*c20Req `json:"requests"`
 	Kills     []string  `json:"kills"`
 	SlowStart bool      `json:"slow_start"`
+	StaleEnv  bool      `json:"stale_worker_variables_in_master_env,omitempty"`
 	KeepBias  int       `json:"keep_bias"`
 	Summary   string    `json:"summary"`
 	Events    []string  `json:"kernel_events,omitempty"`
@@ -164,6 +165,7 @@ func runC20(t *zsim.Tape, cfg *hlib.Config) *hlib.Outcome {
 		enKillTime, enKillAccept, enKillStart, enKillAll, enHang, enNear, enPanic, enAbort = false, false, false, false, false, false, false, false
 	}
 	stallers := 0
+	sc.StaleEnv = t.Draw(4) == 3
 	sc.SlowStart = t.Draw(3) == 2
 	if sc.SlowStart {
 		w.Ext["spawn-delay"] = func(p *zsim.Proc) time.Duration {
@@ -235,7 +237,15 @@ func runC20(t *zsim.Tape, cfg *hlib.Config) *hlib.Outcome {
 	}
 	sc.Requests = reqs
 
-	master := k.NewProc("master", 1, []string{c20Exe, "--listen", "tcp://127.0.0.1:3862"}, []string{"PATH=/sim/bin"})
+	// the master's own environment may already hold the variables it hands to its workers (it was
+	// launched from inside a worker, or from a unit file that exports them): what the master
+	// passes must win
+	masterEnv := []string{"PATH=/sim/bin"}
+	if sc.StaleEnv {
+		masterEnv = append(masterEnv, "ZINC_EXEC_TIMEOUT=30", "ZINC_PIPE_ID=stale-pipe-of-another-master", "ZINC_PREFORK_CHILD=OK", "LANG=C")
+		w.Fault("stale-worker-variables-in-master-environment")
+	}
+	master := k.NewProc("master", 1, []string{c20Exe, "--listen", "tcp://127.0.0.1:3862"}, masterEnv)
 	w.Spawn(master, "master-main", progMain)
 
 	// ---- clients
@@ -355,7 +365,22 @@ func runC20(t *zsim.Tape, cfg *hlib.Config) *hlib.Outcome {
 	killsLeft := 3
 	quiet := false
 	states := map[string]bool{}
+	spawns, spawnSeen := 0, 0
+	storm := ""
 	inv := func() error {
+		// a pool whose workers die as fast as they are started never becomes quiet: no correct run
+		// comes near a thousand worker start-ups (start-ups <= init + max + worker exits, and exits
+		// are bounded by the injected kills and the requests), so stop there instead of burning
+		// the whole step budget
+		for ; spawnSeen < len(k.Events); spawnSeen++ {
+			if k.Events[spawnSeen].Kind == "spawn" {
+				spawns++
+			}
+		}
+		if storm == "" && spawns > 1000 {
+			storm = fmt.Sprintf("%d worker start-ups by t=%s", spawns, w.Now())
+			return fmt.Errorf("storm")
+		}
 		live := k.Live(master.Pid)
 		if len(live) > maxLive {
 			maxLive = len(live)
@@ -457,6 +482,9 @@ func runC20(t *zsim.Tape, cfg *hlib.Config) *hlib.Outcome {
 		return out
 	}
 	// ---- oracles
+	if storm != "" {
+		return fail("I2:workers-die-and-respawn-without-end", storm+": the pool never settles")
+	}
 	if i1 != "" {
 		return fail("I1:live-workers-exceed-max-procs", i1)
 	}
